@@ -87,7 +87,7 @@ class Protocol(Component):
     def __process_packet_call(self, packet):
         try:
             event, id = load_event(packet)
-        except (TypeError, ValueError, LookupError):
+        except (TypeError, ValueError, LookupError, AttributeError):
             return
 
         if self.__receive_event_firewall and not self.__receive_event_firewall(event, self.__sock):
@@ -103,10 +103,13 @@ class Protocol(Component):
     def __process_packet_value(self, packet):
         try:
             value, id, error, meta = load_value(packet)
-        except (TypeError, ValueError, LookupError):
+        except (TypeError, ValueError, LookupError, AttributeError):
             return
 
-        ev = self.__events.get(id)
+        try:
+            ev = self.__events.get(id)
+        except TypeError:
+            return
         if ev is not None:
             if not hasattr(ev, 'value') or not ev.value:
                 ev.value = Value(ev, self)
